@@ -4,3 +4,4 @@ CONSTANTS
   MaxCmds = 1
 INVARIANT SEmit
 INVARIANT SEmitEnds
+INVARIANT SEmitCmd
